@@ -643,7 +643,12 @@ def find(obj, lookup_list, rrel_tree, obj_cls=None, split_string=".", use_proxy=
     if type(res) is tuple:
         # full path is in res[1]
         if use_proxy:
-            return ReferenceProxy(res[1])
+            # the path of named objects must end in the resolved object, also
+            # when the expression ends in a non-consuming step (e.g. `parent(T)`)
+            path = res[1]
+            if len(path) == 0 or path[-1] is not res[0]:
+                path = path + [res[0]]
+            return ReferenceProxy(path)
         else:
             return res[0]
     else:
